@@ -19,11 +19,12 @@ KINDS = {
     "data": {"reads": ["t", "rv", "ivar", "tref", "phase", "merge", "series", "plot", "plotrel"], "muts": [],
              "derivs": ["copy", "slice", "mask", "rebuild"]},
     "prior": {"reads": ["s00", "s01", "s10", "s11"], "muts": [], "derivs": []},
+    "sampler": {"reads": ["mA", "mAf", "mB"], "muts": [], "derivs": [], "draws": ["rA", "rAm", "rB", "iA"]},
 }
 # mirror of History.Owner, used ONLY to choose which histories a property's check replays (the verdict's owner is the monitor's)
 OWNER = {"samples": {"map": "C19", "gapA": "C19", "gapB": "C19", "coverA": "C19", "spanA": "C19", "unimodal": "C19", "unmarg": "C04"},
-         "data": {}, "prior": {}}
-DEFAULT_OWNER = {"samples": "C17", "data": "C15", "prior": "C09"}
+         "data": {}, "prior": {}, "sampler": {"mA": "C05", "mAf": "C05", "mB": "C05"}}
+DEFAULT_OWNER = {"samples": "C17", "data": "C15", "prior": "C09", "sampler": "C10"}
 T0 = 55000.0
 
 
@@ -33,7 +34,8 @@ def owner(kind, r):
 
 def cls_of(kind, op):
     k = KINDS[kind]
-    return "read" if op in k["reads"] else "mut" if op in k["muts"] else "deriv" if op in k["derivs"] else "unknown"
+    return ("read" if op in k["reads"] else "mut" if op in k["muts"] else "deriv" if op in k["derivs"] else
+            "draw" if op in k.get("draws", ()) else "unknown")
 
 
 # ----------------------------------------------------------------------------------------------------------------- values
@@ -299,7 +301,64 @@ class PriorKind:
         return obj, _guard(f)
 
 
-IMPL = {"samples": SamplesKind(), "data": DataKind(), "prior": PriorKind()}
+# ----------------------------------------------------------------------------------------------------------------- sampler
+class SamplerKind:
+    """one TheJoker (one prior, one generator, a serial pool) asked for marginal likelihoods and samples of two data sets"""
+    kind = "sampler"
+    _twin_prior = {}
+
+    def inputs(self, seed, workdir, script=()):
+        return {"seed": seed, "workdir": workdir, "pkind": ["default", "trend2"][seed % 2], "N": [48, 64][seed % 2 if seed % 3 else 0]}
+
+    def _prior(self, inp):
+        import astropy.units as u
+        from thejoker import JokerPrior
+        if inp.get("pristine") and inp["pkind"] in self._twin_prior:
+            return self._twin_prior[inp["pkind"]]
+        if inp["pkind"] == "default":
+            p = JokerPrior.default(P_min=2 * u.day, P_max=512 * u.day, sigma_K0=30 * u.km / u.s, sigma_v=100 * u.km / u.s)
+        else:
+            p = JokerPrior.default(P_min=2 * u.day, P_max=512 * u.day, sigma_K0=30 * u.km / u.s,
+                                   sigma_v=[100 * u.km / u.s, 1 * u.km / u.s / u.day], poly_trend=2)
+        if inp.get("pristine"):
+            self._twin_prior[inp["pkind"]] = p
+        return p
+
+    def make(self, inp, pristine):
+        import thejoker as tj
+        from . import fixture
+        inp["lib"] = fixture.Library(inp["N"], seed=inp["seed"], lnprior=True)
+        inp["A"] = fixture.make_data(n=8, seed=inp["seed"] % 5 + 1)
+        inp["B"] = fixture.make_data(n=6, seed=inp["seed"] % 5 + 11, unit="m/s")
+        d = tempfile.mkdtemp(prefix="hs-", dir=inp["workdir"])
+        inp["dir"] = d
+        inp["libfile"] = os.path.join(d, "lib.hdf5")
+        inp["lib"].samples.write(inp["libfile"], overwrite=True)
+        return tj.TheJoker(self._prior(inp), rng=np.random.default_rng(300 + inp["seed"]), tempfile_path=os.path.join(d, "tj"))
+
+    def apply(self, obj, op, inp):
+        lib = inp["lib"].samples
+
+        def table(t):
+            return {k: t[k] for k in t.par_names}
+        if op == "mA":
+            return obj, _guard(lambda: np.asarray(obj.marginal_ln_likelihood(inp["A"], lib, in_memory=True)))
+        if op == "mAf":
+            return obj, _guard(lambda: np.asarray(obj.marginal_ln_likelihood(inp["A"], inp["libfile"])))
+        if op == "mB":
+            return obj, _guard(lambda: np.asarray(obj.marginal_ln_likelihood(inp["B"], lib)))
+        if op == "rA":
+            return obj, _guard(lambda: table(obj.rejection_sample(inp["A"], lib, return_logprobs=True)))
+        if op == "rAm":
+            return obj, _guard(lambda: table(obj.rejection_sample(inp["A"], lib, in_memory=True)))
+        if op == "rB":
+            return obj, _guard(lambda: table(obj.rejection_sample(inp["B"], inp["libfile"], n_linear_samples=2)))
+        if op == "iA":
+            return obj, _guard(lambda: table(obj.iterative_rejection_sample(inp["A"], lib, n_requested_samples=3, init_batch_size=8)))
+        raise KeyError(op)
+
+
+IMPL = {"samples": SamplesKind(), "data": DataKind(), "prior": PriorKind(), "sampler": SamplerKind()}
 _twin_cache = {}
 
 
@@ -313,7 +372,7 @@ def execute(case):
     for op in case["script"]:
         c = cls_of(kind, op)
         e = {"op": op, "cls": c, "content": [], "same": True, "raised": False}
-        if c == "read":
+        if c in ("read", "draw"):
             used, got = K.apply(used, op, caller)
             key = (kind, case["seed"], tuple(content), op)
             if kind == "prior" and key in _twin_cache:
@@ -325,12 +384,17 @@ def execute(case):
                 for o in content:
                     twin, _ = K.apply(twin, o, pristine)
                 twin, want = K.apply(twin, op, pristine)
+                if pristine.get("dir"):
+                    import shutil
+                    shutil.rmtree(pristine["dir"], ignore_errors=True)
                 if kind == "prior":
                     _twin_cache[key] = want
             e["content"] = list(content)
             e["same"] = bool(same(got, want))
             if not e["same"]:
                 e["got"], e["want"] = repr(brief(got))[:300], repr(brief(want))[:300]
+            if c == "draw":
+                content.append(op)
         else:
             try:
                 used, _ = K.apply(used, op, caller)
@@ -341,6 +405,9 @@ def execute(case):
                 break
             content.append(op)
         events.append(e)
+    if caller.get("dir"):
+        import shutil
+        shutil.rmtree(caller["dir"], ignore_errors=True)
     return {"id": case["id"], "kind": kind, "script": list(case["script"]), "seed": case["seed"], "events": events}
 
 
@@ -370,13 +437,13 @@ def histories(ctx, kind, owned, cap=None, thorough_len=4, seeds=(1, 2, 3, 4, 5, 
     chosen = choose(scripts, kind, owned, quick, rnd, cap)
     if not quick and thorough_len > 3 and kind != "prior":
         # longer histories: seeded random walks over the same alphabet, ending in an owned read
-        ops = KINDS[kind]["reads"] + KINDS[kind]["muts"] + KINDS[kind]["derivs"]
-        last = [x for x in KINDS[kind]["reads"] if owned is None or owner(kind, x) in owned]
+        ops = KINDS[kind]["reads"] + KINDS[kind]["muts"] + KINDS[kind]["derivs"] + KINDS[kind].get("draws", [])
+        last = [x for x in KINDS[kind]["reads"] + KINDS[kind].get("draws", []) if owned is None or owner(kind, x) in owned]
         for _ in range(1500):
             n = rnd.randint(4, 7)
             chosen.append([rnd.choice(ops) for _ in range(n - 1)] + [rnd.choice(last)])
     cases = []
-    reps = {"data": 4, "samples": 2, "prior": 1}[kind]        # configurations per history (data: the four input variants)
+    reps = {"data": 4, "samples": 2, "prior": 1, "sampler": 1}[kind]        # configurations per history (data: the four input variants)
     pool_ = tuple(seeds) if quick else tuple(seeds) + (7, 8, 9, 10, 11, 12)
     for k, s in enumerate(chosen):
         first = (k + ctx.seed) % len(pool_) if quick else rnd.randrange(len(pool_))
@@ -398,15 +465,15 @@ def check(ctx, kind, owned, families, selftest=False, cap=None):
             ctx.nontrivial(("history", kind, tuple(t["script"]), t["seed"]))
     ctx.judge(traces, verdicts, families=families)
     ctx.notes["histories_%s" % kind] = {"replayed": len(traces), "by_length": {str(n): sum(1 for t in traces if len(t["script"]) == n) for n in range(1, 8)},
-                                        "reads_compared_with_a_fresh_twin": sum(1 for t in traces for e in t["events"] if e["cls"] == "read")}
+                                        "reads_compared_with_a_fresh_twin": sum(1 for t in traces for e in t["events"] if e["cls"] in ("read", "draw"))}
     if selftest or ctx.tier != "quick":
         # the binding: an answer that differs from the twin's is rejected under the owner's family, a twin built from something
         # else than the content is a machinery failure
-        good = next((t for t in traces if verdicts[t["id"]]["ok"] and len(t["events"]) >= 2 and t["events"][-1]["cls"] == "read"), None)
+        good = next((t for t in traces if verdicts[t["id"]]["ok"] and len(t["events"]) >= 2 and t["events"][-1]["cls"] in ("read", "draw")), None)
         if good is None:
             raise core.MachineryError("history selftest: no accepted history to corrupt")
         a = copy.deepcopy(good); a["id"] = "st-h-differs"; a["events"][-1]["same"] = False
-        b = copy.deepcopy(good); b["id"] = "st-h-twin"; b["events"][-1]["content"] = list(b["events"][-1]["content"]) + ["copy" if kind != "prior" else "s00"]
+        b = copy.deepcopy(good); b["id"] = "st-h-twin"; b["events"][-1]["content"] = list(b["events"][-1]["content"]) + [{"prior": "s00", "sampler": "rA"}.get(kind, "copy")]
         v = ctx.validate("HistoryTrace", [a, b])
         ctx.traces_validated -= 2
         want_a = owner(kind, good["script"][-1]) + ".AnswerDependsOnlyOnTheContent"
